@@ -80,7 +80,7 @@ Section RoFS.
 
   Definition all_wrapped (os : objs) : Prop := forall id o, In (id, o) os -> wo_wrapped o = true.
 
-  Definition refused (r : cres) : Prop :=
+  Definition refused (r : wres) : Prop :=
     exists e, a_err (r_ans r) = Some e /\ perm_class e = true.
 
   Definition reads_as (m : meth) (a : list arg) (m' : meth) (a' : list arg) : Prop :=
@@ -94,12 +94,12 @@ Section RoFS.
 
   (* the call was answered by exactly one base call - the same method with the same
      arguments (Open / OpenFile: the read-only open of the same name) - and its answer *)
-  Definition forwarded (w : world) (o : wobj) (m : meth) (a : list arg) (bind : nat) (r : cres) (w' : world) : Prop :=
+  Definition forwarded (w : world) (o : wobj) (m : meth) (a : list arg) (bind : nat) (r : wres) (w' : world) : Prop :=
     exists m' a', reads_as m a m' a' /\
       same_answer (r_ans r) bind m' (fst (base_step (w_base w) (wo_base o) m' a')) /\
       w_base w' = snd (base_step (w_base w) (wo_base o) m' a').
 
-  Definition step_ok (w : world) (c : ccall) (r : cres) (w' : world) : Prop :=
+  Definition step_ok (w : world) (c : ccall) (r : wres) (w' : world) : Prop :=
     tree_of (w_base w') = tree_of (w_base w) /\
     all_wrapped (w_objs w') /\
     r_cons r = [] /\
@@ -263,7 +263,7 @@ Section RoFS.
     - cbn. repeat split; auto. discriminate.
   Qed.
 
-  Fixpoint steps_ok (w : world) (cs : list ccall) (rs : list cres) : Prop :=
+  Fixpoint steps_ok (w : world) (cs : list ccall) (rs : list wres) : Prop :=
     match cs, rs with
     | [], [] => True
     | c :: cs', r :: rs' => step_ok w c r (snd (wstep w c)) /\ steps_ok (snd (wstep w c)) cs' rs'
